@@ -31,16 +31,14 @@ fn write4<T: EncodingContext>(ctx: &mut T, s: &ArrayVec<u8, 4>) {
     }
 }
 
-fn handle_end<T: EncodingContext>(
-    ctx: &mut T,
-    mut symbols: ArrayVec<u8, 4>,
-) -> Result<(), DataEncodingError> {
-    // check case "encoding with <= 2 ASCII, no UNLATCH"
+/// Check the end of data rule "encode the rest with <= 2 ASCII codewords, no UNLATCH".
+///
+/// The standard allows ASCII encoding without UNLATCH if there
+/// are <= 2 words of space left in the symbol and
+/// we can encode the rest with ASCII in this space.
+fn ascii_end_of_data<T: EncodingContext>(ctx: &mut T, symbols: &ArrayVec<u8, 4>) -> bool {
     let rest_chars = symbols.len() + ctx.characters_left();
     if rest_chars <= 4 {
-        // The standard allows ASCII encoding without UNLATCH if there
-        // are <= 2 words of space left in the symbol and
-        // we can encode the rest with ASCII in this space.
         let rest: ArrayVec<u8, 4> = symbols
             .iter()
             .copied()
@@ -49,14 +47,23 @@ fn handle_end<T: EncodingContext>(
         let ascii_size = ascii::encoding_size(&rest);
         if ascii_size <= 2 {
             match ctx.symbol_size_left(ascii_size).map(|x| x + ascii_size) {
-                Some(space) if space <= 2 && ascii_size <= space => {
-                    ctx.backup(symbols.len());
-                    ctx.set_ascii_until_end();
-                    return Ok(());
-                }
+                Some(space) if space <= 2 && ascii_size <= space => return true,
                 _ => (),
             }
         }
+    }
+    false
+}
+
+fn handle_end<T: EncodingContext>(
+    ctx: &mut T,
+    mut symbols: ArrayVec<u8, 4>,
+) -> Result<(), DataEncodingError> {
+    // check case "encoding with <= 2 ASCII, no UNLATCH"
+    if ascii_end_of_data(ctx, &symbols) {
+        ctx.backup(symbols.len());
+        ctx.set_ascii_until_end();
+        return Ok(());
     }
     if symbols.is_empty() {
         if !ctx.has_more_characters() {
@@ -97,7 +104,17 @@ fn handle_end<T: EncodingContext>(
 
 pub(super) fn encode<T: EncodingContext>(ctx: &mut T) -> Result<(), DataEncodingError> {
     let mut symbols = ArrayVec::<u8, 4>::new();
-    while let Some(ch) = ctx.eat() {
+    loop {
+        // The planner prices the last (up to four) characters with the end of
+        // data rule when it applies at a boundary, so check it before the
+        // characters are packed into a full EDIFACT triple.
+        if symbols.is_empty() && ctx.has_more_characters() && ascii_end_of_data(ctx, &symbols) {
+            break;
+        }
+        let ch = match ctx.eat() {
+            Some(ch) => ch,
+            None => break,
+        };
         symbols.push(ch);
 
         if symbols.len() == 4 {
